@@ -76,15 +76,26 @@ def _builtin_table_escape(ctx, repo):
     for mod in sorted(repo.modules.values(), key=lambda m_: m_.name):
         if not mod.name.startswith('pylatexenc.latexencode') or mod.name.endswith(('_uni2latexmap', '_uni2latexmap_xml')):
             continue
-        for imp in [x for x in ast.walk(mod.tree) if isinstance(x, ast.ImportFrom) and x.module
-                    and x.module.endswith(('_uni2latexmap', '_uni2latexmap_xml'))]:
+        uses_ = []     # (use node, local text, scope)
+        for imp in [x for x in ast.walk(mod.tree) if isinstance(x, ast.ImportFrom)]:
             scope = enclosing_func(imp) or mod.tree
-            for al in imp.names:
-                if al.name not in tables_:
-                    continue
-                local = al.asname or al.name
-                for use in [x for x in ast.walk(scope) if isinstance(x, ast.Name) and x.id == local
-                            and isinstance(x.ctx, ast.Load)]:
+            if imp.module and imp.module.endswith(('_uni2latexmap', '_uni2latexmap_xml')):
+                for al in imp.names:
+                    if al.name in tables_:
+                        local = al.asname or al.name
+                        uses_ += [(x, local, scope) for x in ast.walk(scope) if isinstance(x, ast.Name)
+                                  and x.id == local and isinstance(x.ctx, ast.Load)]
+            else:
+                # `from . import _uni2latexmap` followed by _uni2latexmap.uni2latex
+                for al in imp.names:
+                    if al.name in ('_uni2latexmap', '_uni2latexmap_xml'):
+                        local = al.asname or al.name
+                        uses_ += [(x, unparse(x), scope) for x in ast.walk(scope) if isinstance(x, ast.Attribute)
+                                  and x.attr in tables_ and isinstance(x.value, ast.Name) and x.value.id == local
+                                  and isinstance(x.ctx, ast.Load)]
+        if True:
+            if True:
+                for use, local, scope in uses_:
                     par = getattr(use, '_parent', None)
                     gp = getattr(par, '_parent', None)
                     verdict = None
